@@ -502,6 +502,12 @@ class Inventory:
                 a0 = arg[2][0]
                 if isinstance(a0, tuple) and a0[0] == "const" and isinstance(a0[1], tuple) and a0[1][0] == "str":
                     return "D8:serde_json::to_value-of-a-string-literal-cannot-fail"
+                # ... nor can serialising a primitive integer or bool (the type is the call's generic argument)
+                site = arg[3] if len(arg) > 3 and isinstance(arg[3], int) else None
+                if site is not None and site in b.blocks and b.blocks[site]["term"].get("k") == "call":
+                    targs = " ".join(b.blocks[site]["term"].get("argtys", []))
+                    if re.match(r"^&?&?([iu](8|16|32|64|128|size)|bool)$", targs.strip()):
+                        return "D8:serde_json::to_value-of-a-primitive-integer-cannot-fail"
             # last().unwrap() / first().unwrap() under a non-empty test
             if isinstance(arg, tuple) and arg[0] == "call" and method_name(arg[1]) in ("last", "first", "pop") and arg[2]:
                 v = mir.strip(arg[2][0])
